@@ -60,6 +60,21 @@ claimed = {
    note="The full recovery loop (block filtering, recorded transactions, final balance, batch boundaries, interruption) is NOT covered; see not-covered list in evidence.assumptions. Bounded chain length / window; Time.Sub stubbed by contract; piece 2 uses function stubs and engine re-execution instead of native replay.",
    technique="SSA symbolic execution + SMT (symbolic monotone timestamps, integer-mode arithmetic) and bounded exploration with symbolic invalid-child pattern",
    design="5 C16"),
+ "C03": dict(
+   text="Bounded exhaustive symbolic execution of the real address manager (Create, Open, Next*/Extend*Addresses, DeriveFromKeyPath, Address, MarkUsed, Lock/Unlock, restart) over memdb with the real key-derivation libraries bridged natively: after every step of every history of 3 (thorough 4) operations every issued address is looked up again and must carry the public key of m/purpose'/coin'/account'/branch/index, the true path/account/internal flag, the scope's address format, consecutive indices, and - whenever unlocked - a private key matching that public key.",
+   note="One concrete seed; data is concrete, so this is exhaustive exploration of operation histories, not a for-all-seeds result. Found and fixed the extendAddresses defect (known_findings.json).",
+   technique="SSA symbolic execution (concrete data) with exhaustive history enumeration; native crypto bridge; native replay",
+   design="5 C03"),
+ "C05": dict(
+   text="(a) after Lock() every in-memory secret (master key, both crypto keys, hashed passphrase, account private keys, every address' private key / script clear text, cached derived keys) is inspected and must be zero, from three set-up states; (b) every private accessor must fail with a locked/watching-only error; (c) Unlock with a FULLY SYMBOLIC passphrase succeeds iff it equals the real one (solver-decided, ideal KDF), failure leaves everything gated; ChangePassphrase (public/private, locked/unlocked, right/wrong old passphrase) is checked immediately and after restart.",
+   note="Concrete seed/keys (wipe is checked for these values); ideal KDF for the symbolic guess. Found and fixed two defects (known_findings.json).",
+   technique="SSA symbolic execution + SMT for the symbolic passphrase; in-package inspection of secret fields",
+   design="5 C05"),
+ "C08": dict(
+   text="Every history of 2 (thorough 3) database transactions over seven manager operations, each transaction committed, rolled back or failing at commit; after each one a manager freshly opened on the same database is compared with the running one on account properties, names, next indices, last addresses, sync state, block hashes and every issued address (metadata, used flag, path).",
+   note="Three genuine divergences (SetSyncedTo, ExtendExternalAddresses, RenameAccount update memory inside the transaction) are recorded as known findings and reported as KNOWN-FINDING lines; any other divergence is a violation. Concrete seed.",
+   technique="SSA symbolic execution with exhaustive history/outcome enumeration, two-manager comparison",
+   design="5 C08"),
 }
 
 not_applicable = {
